@@ -64,7 +64,7 @@ TInit ==
       /\ pay = [t \in Tasks |-> IF c.init[t] = "DONE" THEN 1 ELSE 0]
       /\ clk = [t \in Tasks |-> IF c.init[t] = "DONE" THEN "init" ELSE "none"]
    /\ queue = <<>> /\ unfinished = 0
-   /\ mpc = "start" /\ left = <<>> /\ idx = 0 /\ newleft = <<>> /\ nbefore = 0 /\ k = 0 /\ raised = FALSE
+   /\ mpc = "start" /\ left = <<>> /\ idx = 0 /\ newleft = <<>> /\ nbefore = 0 /\ k = 0 /\ raised = FALSE /\ call = 1
    /\ wpc = [w \in Workers |-> "none"] /\ cur = [w \in Workers |-> 0]
    /\ cvOwner = 0 /\ cvWaiting = FALSE /\ cvNotified = FALSE
    /\ seen = [t \in Tasks |-> <<>>] /\ execs = [t \in Tasks |-> 0]
@@ -99,7 +99,7 @@ TStep ==
            /\ Bind(e) /\ BindCur(e)
       ELSE /\ Bind(e)
            /\ cur' = [w \in Workers |-> e.cur[w]]
-           /\ UNCHANGED <<cfgvars, left, idx, newleft, nbefore, k, raised>>
+           /\ UNCHANGED <<cfgvars, left, idx, newleft, nbefore, k, raised, call>>
    /\ l' = l + 1 /\ tid' = tid
    /\ TLCSet(tid, l + 1)
 
